@@ -306,9 +306,9 @@ MANIFEST_TEXT = {
         "technique": "Lean 4 proof of the output structure + differential correspondence incl. a real re-sanitize of every rewritten output",
     },
     "C03": {
-        "text": "Lean theorem C03_span_within_input: for EVERY stream below 2^64 bytes, seek-based or strict skip, and every configuration (32-bit cumulative size, limit <= 4 x (2^32-1)), a returned media span satisfies offset + len <= input length - proved over the whole scan loop with the program logic of Lemmas/Hoare.lean (invariant: the collected span lies behind the cursor; the end-of-scan check bounds the cursor by the length; what is returned is the collected span). Component lemmas: the end-of-scan check passes iff position <= length (else TruncatedBox) - the mechanism that rejects overrunning boxes on seekable readers; strict skips/reads never leave the stream; seekable skips land exactly at pos+n without wrapping; the span bookkeeping keeps the span contiguous. The 'exactly the maximal media run, every mdat inside it' half is evaluated on the real output against an independent box walker for all reader kinds (Cursor, SeekSkipAdapter, strict), sparse streams up to 2^64-1, until-EOF mdat with and without cumulative size.",
-        "note": "Partial: 'span = maximal media run' is decided per generated case (Spec_C03), not yet by a theorem. The check found defect F1 (overrunning box accepted on seekable readers), repaired in /repo commit bdda8a4. Trusted: as C01.",
-        "technique": "Lean 4 proof: program logic + loop invariant over the scan loop (span inside the input for all inputs), cursor/span lemmas; differential correspondence across reader kinds with an independent walker",
+        "text": "Lean theorems C03_spec_holds / C03_media_run: for EVERY stream, seek-based or strict skip, and every configuration, whenever the model of sanitize returns a result the INDEPENDENT box walker (Spec/Mp4Walk.lean, written from the box syntax) finds the whole input to be a clean sequence of top-level boxes - so a box overrunning the input is never accepted, on seek-based cursors too - and the returned span lies inside the input, starts at the header of the first mdat, ends where the maximal run of mdat/free/skip/meta/meco boxes starting there ends, and contains every mdat: the executable specification Spec_C03 has no complaint about any result of the model (with and without cumulative_mdat_box_size, size 0 / 32-bit / 64-bit / uuid headers). Proved with partial-correctness triples over I/O programs (Lemmas/Tri.lean) relating every header the scan loop reads to the walker's headerAt (Lemmas/ScanRel.lean: the loop walks a chain of walker boxes, its span is the fold of the bookkeeping over that chain), a list lemma showing that the fold over a consecutive box sequence is the maximal media run and fails when an mdat lies outside it (Lemmas/MediaRun.lean), and the end-of-scan check. C03_span_within_input (program logic Safe, loop invariant) gives offset+len <= length independently. Component lemmas: the end-of-scan check passes iff position <= length (else TruncatedBox); strict skips/reads never leave the stream; seekable skips land exactly at pos+n without wrapping. The same Spec_C03 is evaluated on the REAL output for all reader kinds (Cursor, SeekSkipAdapter, strict, by-value / &mut / Box carriers), sparse streams up to 2^64-1, until-EOF mdat with and without cumulative size, and the model must reproduce every outcome.",
+        "note": "The check found defect F1 (overrunning box accepted on seekable readers), repaired in /repo commit bdda8a4. Trusted: as C01.",
+        "technique": "Lean 4 proof: relational (partial-correctness) program logic tying the scan loop to an independent box walker, list lemma for the maximal media run, Hoare-style loop invariant for the span bound; differential correspondence across reader kinds with the same executable specification",
     },
     "C04": {
         "text": "Lean theorems: the table rewrite preserves width, count, array length, serialized length and the 8 bytes before the array; a parsed ftyp re-serializes to its bytes for every length >= 8. Spec_C04 compares, on the real output, the ftyp payload and every moov payload byte outside the walker's tables with the input, on rich trees (unknown/uuid siblings at all five levels, 64-bit and until-end child headers).",
